@@ -161,7 +161,8 @@ def generate(rng, tier):
         sched = {"policy": "rr", "n": rng.choice([1, 2, 3, 5, 7])}
     sched["seed"] = rng.getrandbits(48)
     # afterwards a Hy module whose macros call gensym at compile time is imported from source
-    return {"threads": threads, "sched": sched, "followup": 2, "import_src": rng.random() < 0.12}
+    return {"threads": threads, "sched": sched, "followup": 2, "import_src": rng.random() < 0.12,
+            "sde": rng.random() < 0.5}   # the import happens with SOURCE_DATE_EPOCH set (reproducible-build configuration)
 
 
 def _mkarg(spec, sink=None):
@@ -259,6 +260,11 @@ def execute(desc):
     spec = desc["sched"]
     chooser = T.make_chooser(spec, random.Random(spec.get("seed", 0)), len(desc["threads"]))
     sched = T.Scheduler(chooser)
+    # a timed wait on a held lock may expire (the holder is stalled in simulated time): decided by the run's PRNG
+    if spec["policy"] == "replay":
+        sched.timeout_plan = list(spec.get("timeouts", []))
+    else:
+        sched.timeout_rng = random.Random(spec.get("seed", 0) ^ 0x5A17)
     results = []  # (tid, call index, 'ok'/'exc', obj)
     win = _state["window"]
     gname = _state["gensym_name"]
@@ -313,7 +319,16 @@ def execute(desc):
 
     imported = []
     if desc.get("import_src") and not outcome and not outcome2:
-        imported = _import_from_source()
+        saved_sde = os.environ.get("SOURCE_DATE_EPOCH")
+        if desc.get("sde"):
+            os.environ["SOURCE_DATE_EPOCH"] = "1700000000"
+        try:
+            imported = _import_from_source()
+        finally:
+            if saved_sde is None:
+                os.environ.pop("SOURCE_DATE_EPOCH", None)
+            else:
+                os.environ["SOURCE_DATE_EPOCH"] = saved_sde
     viols = []
     if outcome == "deadlock":
         viols.append({"clause": "deadlock", "sig": "deadlock",
@@ -372,7 +387,7 @@ def execute(desc):
     if inside:
         from sim.kernel import digest
         sigs.append(digest([s for s in sched.switches]))
-    return {"events": events, "violations": viols, "decisions": sched.decisions,
+    return {"events": events, "violations": viols, "decisions": sched.decisions, "timeouts": sched.timeouts,
             "faults": {"preemption_inside_gensym": inside,
                        "preemption_between_counter_load_and_store":
                            sched.probes.get("switch_between_counter_load_and_store", 0),
@@ -394,7 +409,7 @@ def shrink(desc):
         kernel._CHECK = sys.modules[__name__]
         res = kernel.run_isolated(kernel._exec_desc, desc, 60)
         d = dict(desc)
-        d["sched"] = {"policy": "replay", "decisions": res["decisions"]}
+        d["sched"] = {"policy": "replay", "decisions": res["decisions"], "timeouts": res.get("timeouts", [])}
         yield d
         return
     th = desc["threads"]
@@ -407,7 +422,7 @@ def shrink(desc):
     if len(th) > 2:
         for i in range(len(th)):
             nd = [x - (x > i) for x in dec if x != i]
-            yield dict(desc, threads=th[:i] + th[i + 1:], sched={"policy": "replay", "decisions": nd})
+            yield dict(desc, threads=th[:i] + th[i + 1:], sched={"policy": "replay", "decisions": nd, "timeouts": desc["sched"].get("timeouts", [])})
     # drop a call
     for i, calls in enumerate(th):
         if len(calls) > 1:
@@ -423,11 +438,11 @@ def shrink(desc):
     cut = n // 2
     while cut >= 1:
         if n - cut >= 0:
-            yield dict(desc, sched={"policy": "replay", "decisions": dec[: n - cut]})
+            yield dict(desc, sched={"policy": "replay", "decisions": dec[: n - cut], "timeouts": desc["sched"].get("timeouts", [])})
         cut //= 2
     # remove single switches
     prev = None
     for i, x in enumerate(dec):
         if prev is not None and x != prev:
-            yield dict(desc, sched={"policy": "replay", "decisions": dec[:i] + [prev] + dec[i + 1:]})
+            yield dict(desc, sched={"policy": "replay", "decisions": dec[:i] + [prev] + dec[i + 1:], "timeouts": desc["sched"].get("timeouts", [])})
         prev = x
